@@ -48,6 +48,8 @@ Layer(kind, x) ==
   CASE kind = "b64w30" -> B64Wrapped(x, 30, <<13, 10>>)
     [] kind = "b64w50" -> B64Wrapped(x, 50, <<10>>)
     [] kind = "b64w76" -> B64Wrapped(x, 76, <<13, 10>>)
+    [] kind = "b64e32" -> B64Wrapped(x, 32, <<38, 35, 49, 51, 59, 38, 35, 49, 48, 59>>)              \* line ends written as &#13;&#10;
+    [] kind = "b64e64" -> B64Wrapped(x, 64, <<38, 35, 120, 68, 59, 38, 35, 49, 48, 59>>)             \* ... as &#xD;&#10;
     [] kind = "b64" -> [enc |-> B64Encode(x), ty |-> "", obf |-> "encoding.base64", val |-> x, off |-> 0, dom |-> BareB64Accept(B64Encode(x))]
     [] kind = "atob" -> [enc |-> Call(ATOB, SQ, B64Encode(x)), ty |-> "javascript.string", obf |-> "encoding.base64", val |-> x, off |-> 0, dom |-> x # <<>>]
     [] kind = "Base64Decode" -> [enc |-> Call(B64DEC, DQ, B64Encode(x)), ty |-> "vba.string", obf |-> "encoding.base64", val |-> x, off |-> 0, dom |-> x # <<>>]
